@@ -101,7 +101,10 @@ pub fn gen_conc(property: &str, profile: &str, seed: u64) -> Plan {
     // removed (the regenerated index must agree with the one built while the clients ran)
     let mut ops = Vec::new();
     let uid = sw.uid();
-    ops.push(Op { uid, think_ms: 0, kind: OpKind::Restart { lazy: sw.rng.chance(1, 2), damage: vec![AtRest::IndexRemove { blob: sw.rng.below(8) as usize }, AtRest::IndexRemove { blob: sw.rng.below(8) as usize }] } });
+    // C03 runs: every index file is removed (each removal takes the first blob that still has one),
+    // so every index built in memory by the concurrent writers is replaced by a regenerated one
+    let damage = if property == "C03" { vec![AtRest::IndexRemove { blob: 0 }; 12] } else { vec![AtRest::IndexRemove { blob: sw.rng.below(8) as usize }, AtRest::IndexRemove { blob: sw.rng.below(8) as usize }] };
+    ops.push(Op { uid, think_ms: 0, kind: OpKind::Restart { lazy: sw.rng.chance(1, 2), damage } });
     for _ in 0..sw.rng.range(1, 4) {
         ops.push(gen_op(&mut sw, &MIX_DATA_NO_RESTART, plan.store.key_len));
     }
